@@ -116,8 +116,8 @@ func recDial(ctx context.Context, network, addr string) (net.Conn, error) {
 	return c1, nil
 }
 
-func dialWorker(dial func(context.Context, string, string) (net.Conn, error), targets []string) {
-	v, _ := simrt.Park(kDialIdle, 0, -1, 0, 0, nil)
+func dialWorker(dial func(context.Context, string, string) (net.Conn, error), targets []string, idx int) {
+	v, _ := simrt.Park(kDialIdle, 0, -1, int64(idx), 0, nil)
 	for v != relQuit {
 		// v = dial id<<8 | target index
 		id, ti := v>>8, int(v&0xff)
@@ -293,7 +293,7 @@ func runDial(tt *testing.T, tape *simrt.Tape, keep bool) (out simrt.Outcome) {
 		w.Log.Addf("mode=%s ttl=%d set=%v changes=%v map=%v workers=%d dials=%d arms=%v", mode, ttl, first["svc.test."], changes, cmap, nworkers, ndials, arms)
 		sample = map[string]any{"mode": mode, "dns_ttl": ttl.String(), "resolved_set": first["svc.test."], "set_changes_at_refresh": changes, "connect_to": cmap, "workers": nworkers, "dials": ndials}
 		for i := 0; i < nworkers; i++ {
-			go dialWorker(dial, targets)
+			go dialWorker(dial, targets, i)
 		}
 		dials := map[int64]*outerDial{}
 		var order []*outerDial
